@@ -67,6 +67,7 @@ Inductive build := Debug | Release.
 Inductive err :=
 | ECallStackOverflow | EUnexpectedEndOfInput | EExitCode | EInvalidInstruction
 | EInvalidArgument
+| EConversion (param : N)                     (* InvalidArgument "Failed to convert function input #param ..." *)
 | EVarNotFound (name : option (list N))      (* None = "Failed to set local variable: ..." *)
 | EProcedureNotFound (h : N)
 | EUnimplemented | EOutOfMemory | EMissingArgument | ETimeout
@@ -707,6 +708,11 @@ Inductive native :=
 | NCall1       (* call1(f: Value, x: Value) -> push x; run_function(f)?  *)
 | NTry1        (* try1(f: Value, x: Value) -> push x; run_function(f), error swallowed -> nil, logs a marker *)
 | NCall0       (* call0(f: Value) -> run_function(f)? *)
+| NT4          (* t4(a: i64, b: f64, c: bool, d: &str) -> nil ; logs [a; b; c; d] *)
+| NNil1        (* nil1(a: Nilable<i64>) -> a or -1 ; logs [a] *)
+| NTab1        (* tab1(t: &CaoLangTable) -> len ; logs [len] *)
+| NCat2        (* cat2(a: &str, b: &str) -> len a + len b ; logs [a; b] *)
+| NRb1         (* rb1(f: Value, x: Value): like call1, logs the stack heights before and after run_function *)
 | NStdMin | NStdMax | NStdSort | NStdToArray.
 
 Definition str_bytes (l : list N) := l.
@@ -718,6 +724,11 @@ Definition name_mix3 : list N := [109; 105; 120; 51]%N.
 Definition name_call1 : list N := [99; 97; 108; 108; 49]%N.
 Definition name_try1 : list N := [116; 114; 121; 49]%N.
 Definition name_call0 : list N := [99; 97; 108; 108; 48]%N.
+Definition name_t4 : list N := [116; 52]%N.
+Definition name_nil1 : list N := [110; 105; 108; 49]%N.
+Definition name_tab1 : list N := [116; 97; 98; 49]%N.
+Definition name_cat2 : list N := [99; 97; 116; 50]%N.
+Definition name_rb1 : list N := [114; 98; 49]%N.
 Definition name_min : list N := [95; 95; 109; 105; 110]%N.
 Definition name_max : list N := [95; 95; 109; 97; 120]%N.
 Definition name_sort : list N := [95; 95; 115; 111; 114; 116]%N.
@@ -727,11 +738,13 @@ Definition native_name (n : native) : list N :=
   match n with
   | NLog1 => name_log1 | NSub2 => name_sub2 | NFail0 => name_fail0 | NStr1 => name_str1
   | NMix3 => name_mix3 | NCall1 => name_call1 | NTry1 => name_try1 | NCall0 => name_call0
+  | NT4 => name_t4 | NNil1 => name_nil1 | NTab1 => name_tab1 | NCat2 => name_cat2 | NRb1 => name_rb1
   | NStdMin => name_min | NStdMax => name_max | NStdSort => name_sort | NStdToArray => name_to_array
   end.
 
 Definition all_natives : list native :=
-  [NStdMin; NStdMax; NStdSort; NStdToArray; NLog1; NSub2; NFail0; NStr1; NMix3; NCall1; NTry1; NCall0].
+  [NStdMin; NStdMax; NStdSort; NStdToArray; NLog1; NSub2; NFail0; NStr1; NMix3; NCall1; NTry1; NCall0;
+   NT4; NNil1; NTab1; NCat2; NRb1].
 
 (* callables: HandleTable keyed by Handle::from_str(name) *)
 Fixpoint find_native (h : N) (l : list native) : option native :=
@@ -1013,12 +1026,40 @@ Definition native_sorted (self : N -> state -> nres) (iterable key_fn : value) (
   | _ => NOk iterable s
   end.
 
+(* get_table / get_table_mut *)
+Inductive tblres := TblOk (a : N) (t : table) | TblNot | TblUb.
+Definition get_table (h : heap) (v : value) : tblres :=
+  match v with
+  | VObj a =>
+      match hget h a with
+      | Some (OTable t) => TblOk a t
+      | Some _ => TblNot
+      | None => TblUb
+      end
+  | _ => TblNot
+  end.
+
+
+(* TryFrom<Value> for &str *)
+Inductive strconv := SIs (b : list N) | SNot | SUb.
+Definition as_str (h : heap) (v : value) : strconv :=
+  match v with
+  | VObj a =>
+      match hget h a with
+      | Some (OStr b) => SIs b
+      | Some _ => SNot
+      | None => SUb
+      end
+  | _ => SNot
+  end.
+
 (* number of typed parameters (traits.rs: VmFunction1..4; fail0 is a plain closure Fn(&mut Vm)) *)
 Definition native_arity (n : native) : nat :=
   match n with
-  | NLog1 | NStr1 | NCall0 | NStdToArray => 1
-  | NSub2 | NCall1 | NTry1 | NStdMin | NStdMax | NStdSort => 2
+  | NLog1 | NStr1 | NCall0 | NStdToArray | NNil1 | NTab1 => 1
+  | NSub2 | NCall1 | NTry1 | NStdMin | NStdMax | NStdSort | NCat2 | NRb1 => 2
   | NMix3 => 3
+  | NT4 => 4
   | NFail0 => 0
   end.
 
@@ -1038,14 +1079,10 @@ Definition native_body (self : N -> state -> nres) (n : native) (s : state) : nr
       end
   | NFail0 => NErr EUnimplemented s
   | NStr1 =>
-      match speek s 0 with
-      | VObj a =>
-          match hget h a with
-          | Some (OStr b) => NOk (VInt (Z.of_nat (length b))) (log_push s [TStr b])
-          | Some _ => NErr EInvalidArgument s
-          | None => NStop AUB s
-          end
-      | _ => NErr EInvalidArgument s
+      match as_str h (speek s 0) with
+      | SUb => NStop AUB s
+      | SNot => NErr (EConversion 1) s
+      | SIs b => NOk (VInt (Z.of_nat (length b))) (log_push s [TStr b])
       end
   | NMix3 =>
       match to_i64 h (speek s 1), to_f64 h (speek s 2) with
@@ -1067,6 +1104,69 @@ Definition native_body (self : N -> state -> nres) (n : native) (s : state) : nr
           end
       end
   | NCall0 => run_function self (speek s 0) s
+  | NT4 =>
+      (* converted last-to-first: d, c, b, a *)
+      match as_str h (speek s 0) with
+      | SUb => NStop AUB s
+      | SNot => NErr (EConversion 4) s
+      | SIs d =>
+          match as_bool h (speek s 1), to_f64 h (speek s 2), to_i64 h (speek s 3) with
+          | Some c, Some b, Some a =>
+              NOk VNil (log_push s [TInt a; TReal (canon_real b); TInt (if c then 1 else 0); TStr d])
+          | _, _, _ => NStop AUB s
+          end
+      end
+  | NNil1 =>
+      match speek s 0 with
+      | VNil => NOk (VInt (-1)) (log_push s [TNil])
+      | v => match to_i64 h v with
+             | Some i => NOk (VInt i) (log_push s [TInt i])
+             | None => NStop AUB s
+             end
+      end
+  | NTab1 =>
+      match get_table h (speek s 0) with
+      | TblOk _ t => let l := Z.of_nat (length (tkeys t)) in NOk (VInt l) (log_push s [TInt l])
+      | TblNot => NErr (EConversion 1) s
+      | TblUb => NStop AUB s
+      end
+  | NCat2 =>
+      match as_str h (speek s 0) with
+      | SUb => NStop AUB s
+      | SNot => NErr (EConversion 2) s
+      | SIs b =>
+          match as_str h (speek s 1) with
+          | SUb => NStop AUB s
+          | SNot => NErr (EConversion 1) s
+          | SIs a => NOk (VInt (Z.of_nat (length a + length b))) (log_push s [TStr a; TStr b])
+          end
+      end
+  | NRb1 =>
+      let h0 := Z.of_nat (scount s) in
+      let d0 := Z.of_nat (length (st_calls s)) in
+      match spush s (speek s 0) with
+      | None => NErr EStackoverflow s
+      | Some s1 =>
+          let arity :=
+            match speek s 1 with
+            | VObj a =>
+                match hget h a with
+                | Some (OFun _ ar) | Some (OClo _ ar _) => Z.of_N ar
+                | Some (ONative nh) =>
+                    match find_native nh all_natives with Some n' => Z.of_nat (native_arity n') | None => (-1)%Z end
+                | _ => (-1)%Z
+                end
+            | _ => (-1)%Z
+            end in
+          let entry (x : state) (ok : Z) :=
+            [TStr name_rb1; TInt h0; TInt d0; TInt (Z.of_nat (scount x)); TInt (Z.of_nat (length (st_calls x)));
+             TInt ok; TInt arity] in
+          match run_function self (speek s 1) s1 with
+          | NOk v s2 => NOk v (log_push s2 (entry s2 1%Z))
+          | NErr e s2 => NErr e (log_push s2 (entry s2 0%Z))
+          | r => r
+          end
+      end
   | NStdToArray =>
       let v := speek s 0 in
       match v with
@@ -1168,20 +1268,6 @@ Definition less_op (or_eq : bool) (h : heap) (a b : value) : vres :=
   | CNone => VOk (vbool false)
   | CCrash => VCrash
   end.
-
-(* get_table / get_table_mut *)
-Inductive tblres := TblOk (a : N) (t : table) | TblNot | TblUb.
-Definition get_table (h : heap) (v : value) : tblres :=
-  match v with
-  | VObj a =>
-      match hget h a with
-      | Some (OTable t) => TblOk a t
-      | Some _ => TblNot
-      | None => TblUb
-      end
-  | _ => TblNot
-  end.
-
 
 (* write_local_var *)
 Definition write_local (s : state) (off : nat) (handle : N) (v : value) : option state :=
